@@ -230,6 +230,15 @@ func (t *Term) flushPending(why string) {
 }
 
 func (t *Term) ground(c byte) {
+	if t.acsActive() && c != 0x1b && c != 0x0e && c != 0x0f {
+		// while the alternate character set is active a byte selects a glyph of that set
+		// (CP437 fonts have glyphs on control and high bytes too)
+		if g, ok := t.Q.AcsMap[c]; ok {
+			t.flushPending("alternate character set glyph")
+			t.printGlyph(g)
+			return
+		}
+	}
 	if c < 0x20 || c == 0x7f {
 		t.flushPending(fmt.Sprintf("control byte %#02x", c))
 		t.c0(c)
@@ -357,11 +366,10 @@ func (t *Term) print(r rune) {
 		t.err("C1 control U+%04X in output", r)
 		return
 	}
-	if t.acsActive() && r < 0x80 {
-		if g, ok := t.Q.AcsMap[byte(r)]; ok {
-			r = g
-		}
-	}
+	t.printGlyph(r)
+}
+
+func (t *Term) printGlyph(r rune) {
 	t.Text = append(t.Text, r)
 	w := runewidth.RuneWidth(r)
 	if w == 0 {
